@@ -569,6 +569,8 @@ def run_unit(unit: str, dst: str, root: str):
                     other = True
             elif "invariant not satisfied" in e["head"] and e["lines"] and e["lines"][0] in mytags:
                 failed_tag_lines.add(e["lines"][0])
+            elif "assertion failed" in e["head"] and e["lines"] and e["lines"][0] in mytags:
+                failed_tag_lines.add(e["lines"][0])        # a tagged assertion placed by a template hint (R7)
             elif "decreases not satisfied" in e["head"] and any(t["decreases"] for t in mytags.values()):
                 failed_tag_lines.update(ln for ln, t in mytags.items() if t["decreases"])
             elif "invariant not satisfied" in e["head"]:
